@@ -716,7 +716,7 @@ def part_sccp(ctx, deps=None):
             dd = {"error": repr(e)[:300]}
         if dd is not None:
             pdiff += 1
-            if pdiff <= 2:
+            if pdiff <= 2 and stats["rejected"] == 0:
                 ctx.violation("correspondence-broken", "SCCP's final lattice / executable set differs from the reference least "
                               "fixpoint (independent implementation) on " + s_["name"],
                               {"difference": dd, "function_after": s_["text"][:5000], "function_before": (s_.get("text_before") or "")[:3000]},
